@@ -108,7 +108,8 @@ let () =
          end else
          let e = expr_of (parse line) in
          let d = elab e in
-         let wfok = wf d in
+         (* the syntactic side condition of the theorems (wfE) and, redundantly, wf of the result *)
+         let wfok = wfE e && wf d in
          (match export sat d with
           | Inl j -> print_string ((if wfok then "OK " else "OK!WF ") ^ show_j j)
           | Inr es -> print_string ((if wfok then "ERR " else "ERR!WF ") ^ String.concat "|" (List.sort compare (List.map show_err es))))
